@@ -659,42 +659,69 @@ def check_skeleton(ctx, rep):
 
 
 def check_display_separators(ctx, rep):
-    """Or / And / Path print one separator between consecutive elements: the separator write inside the per-element closure
-    is guarded by `index < collection.len() - 1` on the collection the closure iterates"""
+    """Or / And / Path print one separator between consecutive elements: the separator write (in the per-element closure of a
+    try_for_each, or in the body of a for loop) is guarded by the enumerate index in one of the two sound forms - after each
+    element but the last (`index < len - 1`), or before each element but the first (`index > 0`) - and sits on that side of
+    the element's own fmt call"""
+    from rules import seps
+
     prog = ctx.prog
     n = 0
-    for short, sep in (("<haystack::filter::nodes::Or as std::fmt::Display>::fmt", " or "), ("<haystack::filter::nodes::And as std::fmt::Display>::fmt", " and "), ("<haystack::filter::path::Path as std::fmt::Display>::fmt", "->")):
+    for short, sep, field in (("<haystack::filter::nodes::Or as std::fmt::Display>::fmt", " or ", ".ands"), ("<haystack::filter::nodes::And as std::fmt::Display>::fmt", " and ", ".terms"), ("<haystack::filter::path::Path as std::fmt::Display>::fmt", "->", None)):
         b = body_of(prog, short)
         if b is None:
             rep.gap(short, "-", "not found")
             continue
         n += 1
         key = "display-separator:%s" % short.split("::")[3].split(" ")[0]
-        found = False
         ok = False
-        why = "separator %r is not written from a per-element closure" % sep
-        for cid in prog.closures_of.get(b.id, []):
-            cb = prog.bodies[cid]
-            for bi, t in cb.calls():
+        form = ""
+        why = "separator %r is not written per element of an enumerate() iteration" % sep
+        for x in [b] + [prog.bodies[c] for c in prog.closures_of.get(b.id, [])]:
+            in_closure = x.rec["kind"] == "Closure"
+            sites = []
+            elems = []
+            for bi, t in x.calls():
                 nm = strip_generics(mir.callee_name(t) or "")
-                if nm.endswith("Formatter::write_str") and len(t["args"]) > 1:
-                    v = G.describe(cb, t["args"][1])
+                if (nm.endswith("Formatter::write_str") or nm.endswith("Write::write_str")) and len(t["args"]) > 1:
+                    v = G.describe(x, t["args"][1])
                     if v.kind == "conststr" and v.v == sep:
-                        found = True
-                        why = "no `index < len - 1` guard on the separator"
-                        for g in G.guards_at(cb, bi):
-                            if g.op == "Lt" and g.b is not None and g.b.kind == "binop" and g.b.v == "Sub" and len(g.b.args) == 2:
-                                ln, one = g.b.args
-                                if one.kind == "const" and one.v == 1 and ln.kind == "call" and ln.v.endswith("::len") and re.search(r"^_2\.0", repr(g.a)):
-                                    # the closure must be driven by enumerate() over the same field
-                                    fld = re.search(r"\.([a-z_]+)\)?$", repr(ln.args[0]))
-                                    drv = [tt for _, tt in b.calls() if strip_generics(mir.callee_name(tt) or "").endswith("try_for_each")]
-                                    if fld and drv and ("enumerate" in repr(G.describe(b, drv[0]["args"][0]))) and ("." + fld.group(1)) in repr(G.describe(b, drv[0]["args"][0])):
-                                        ok = True
-                                    else:
-                                        why = "the guard's length is not of the collection the closure enumerates"
+                        sites.append(bi)
+                        continue
+                if nm.endswith("Display>::fmt") or nm.endswith("Formatter::write_fmt") or nm.endswith("Formatter::write_str") or nm.endswith("Debug>::fmt"):
+                    elems.append(bi)
+            for bi in sites:
+                header = None
+                index_re = r"^_2\.0$" if in_closure else r"as Some\.0\.0$"
+                if not in_closure:
+                    # innermost enumerate loop around the separator
+                    lp = [g for g in G.guards_at(x, bi) if g.a is not None and g.a.kind == "discr" and g.op == "Eq" and g.b.v == 1 and g.a.args and "Enumerate" in repr(g.a.args[0])]
+                    if not lp:
+                        why = "separator %r is written outside an enumerate() loop" % sep
+                        continue
+                    header = lp[0].block
+                    el = [e for e in elems if header in x.reachable(e) and e in x.reachable(header)]
+                    driver = repr(lp[0].a.args[0])
+                else:
+                    el = elems
+                    drv = [tt for _, tt in b.calls() if re.search(r"::(try_for_each|for_each|try_fold|fold)$", strip_generics(mir.callee_name(tt) or ""))]
+                    driver = repr(G.describe(b, drv[0]["args"][0])) if drv else ""
+                good, fm, coll, w2 = seps.classify(x, bi, index_re, el, header)
+                if not good:
+                    why = w2
+                    continue
+                if "enumerate" not in driver.lower():
+                    why = "the index does not come from enumerate() over the printed collection"
+                    continue
+                if coll is not None:
+                    fld = re.search(r"\.([a-z_]+)\)*$", coll)
+                    if not (fld and ("." + fld.group(1)) in driver):
+                        why = "the guard's length is not of the collection that is enumerated"
+                        continue
+                ok = True
+                form = fm
         if ok:
-            rep.ok("T-SEP", key, b.where(), "%r written exactly between consecutive elements (index < len - 1 of the enumerated collection)" % sep)
+            rep.ok("T-SEP", key, b.where(), "%r written %s of the enumerated collection" % (sep, form))
         else:
             rep.bad("T-SEP", "T-SEP:" + key, b.where(), "%s: %s; some trees print without a separator (or with an extra one) and re-parse differently" % (short.split("::")[3].split(" ")[0], why))
     return n
